@@ -159,6 +159,9 @@ def main(argv=None) -> int:
         for key, n in seen_known.items():
             print(f"KNOWN-FINDING: property={pid} {known_keys[key]['what']} [key={key}; {n} case(s) this run]")
         vc = getattr(ctx, "vcount", {})
+        if os.environ.get("VERIF_KEYS"):
+            for key, what, rep in ctx.violations:
+                print(f"KEY {'known' if key in known_keys else 'NEW  '} n={vc.get(key, '?')} {key} :: {what[:300]}")
         rc = 0
         nnew = 0
         for key, (what, rep) in list(new.items())[:25]:
